@@ -146,6 +146,5 @@ func VerifStateSeg(seg segment.Segment) string {
 		s.m.Unlock()
 	}
 	sort.Ints(fsts)
-	return fmt.Sprintf("mutexFree=%v fsts=%v stored=%d/%d:%08x", free, fsts,
-		len(s.storedFieldChunkUncompressed), cap(s.storedFieldChunkUncompressed), verifFNV(s.storedFieldChunkUncompressed))
+	return fmt.Sprintf("mutexFree=%v fsts=%v", free, fsts)
 }
